@@ -7,7 +7,7 @@ from tools.framework import Case, Err
 from harness.midi_common import *
 
 ID = "C20"
-LEAN_MODULES = ["Mingus.Props.C20", "Mingus.Props.C20Chord", "Mingus.Props.C20Decode", "Mingus.Props.C20Track", "Mingus.Tie.C20"]
+LEAN_MODULES = ["Mingus.Props.C20", "Mingus.Props.C20Chord", "Mingus.Props.C20Decode", "Mingus.Props.C20Track", "Mingus.Props.C20Comp", "Mingus.Tie.C20"]
 RULE = ("every registered tuning (76) x every string x notes 0..127 (quick: every 3rd) x maxfret {0,12,24}: find_frets and "
         "get_Note incl. out-of-range strings and frets; seeded random note sets (1-4 notes) per tuning x max_distance 1-6 against "
         "a brute-force specification of find_fingering; chord shorthands x roots on the guitar-family single-string tunings for "
@@ -95,6 +95,12 @@ def tab_nc(t, ns, width):
     from mingus.extra import tablature
     return lines(tablature.from_NoteContainer(mk_nc(ns), width, None if t is None else mk_tuning(t)))
 
+def tab_nc_form(t, ns, width, form):
+    """the documented other forms of the argument: a list of 'C-4' strings, a list of Note objects"""
+    from mingus.extra import tablature
+    arg = ["%s-%d" % (n[0], n[1]) for n in ns] if form == "strings" else [note_of(n) for n in ns]
+    return lines(tablature.from_NoteContainer(arg, width, None if t is None else mk_tuning(t)))
+
 def tab_bar(t, bar, width):
     from mingus.extra import tablature
     return lines(tablature.from_Bar(mk_bar(bar), width, None if t is None else mk_tuning(t)))
@@ -126,7 +132,7 @@ def tab_composition_safe(comp, width):
         return err_of(e)
 
 IMPL = {"tun.frets": tun_frets, "tun.note": tun_note, "tun.fingering": tun_fingering, "tun.chord": tun_chord,
-        "tun.get": tun_get, "tun.gets": tun_gets, "tab.note": tab_note, "tab.nc": tab_nc, "tab.bar": tab_bar,
+        "tun.get": tun_get, "tun.gets": tun_gets, "tab.note": tab_note, "tab.nc": tab_nc, "tab.nc_form": tab_nc_form, "tab.bar": tab_bar,
         "tab.track": tab_track, "tab.composition": tab_composition}
 
 def has_model(c):
@@ -293,12 +299,30 @@ def cases(tier, rng):
                 if 0 <= p <= 115:
                     o, pc = divmod(p, 12)
                     out.append(Case("tab.note", [t, [["C", "C#", "D", "Eb", "E", "F", "F#", "G", "Ab", "A", "Bb", "B"][pc], o, 1, 64], w], tag="tab:note"))
+    # entries that cannot be fingered, in every form of the argument: the error must be the finger error
+    NAMES12 = ["C", "C#", "D", "Eb", "E", "F", "F#", "G", "Ab", "A", "Bb", "B"]
+    def pn(p):
+        o, pc = divmod(p, 12)
+        return [NAMES12[pc], o, 1, 64]
+    for t in tunings_for_tab:
+        opens = open_pitches(t or STD)
+        sets = [[opens[0] - 1], [opens[0], opens[0] + 1], [opens[-1] + 40], [opens[0] - 2, opens[-1]], [opens[0], opens[-1] + 2]]
+        for ps in sets:
+            if all(0 <= p <= 115 for p in ps):
+                ch = [pn(p) for p in ps]
+                out.append(Case("tab.nc", [t, ch, 60], tag="tab:nc-unplayable"))
+                for form in ("strings", "notes"):
+                    out.append(Case("tab.nc_form", [t, ch, 60, form], tag="tab:nc-unplayable-" + form, model=False))
     n_rand = 150 if tier == "quick" else 2500
     for _ in range(n_rand):
         t = rng.choice(tunings_for_tab)
         opens = open_pitches(t or STD)
         w = rng.choice([40, 50, 60, 80, 100, 120])
         out.append(Case("tab.nc", [t, tab_chord(rng, opens), w], tag="tab:nc"))
+        if _ < 60:
+            ch = tab_chord(rng, opens)
+            for form in ("strings", "notes"):
+                out.append(Case("tab.nc_form", [t, ch, w, form], tag="tab:nc-" + form, model=False))
         out.append(Case("tab.bar", [t, tab_bar_payload(rng, opens), rng.choice([40, 60, 80])], tag="tab:bar"))
         out.append(Case("tab.track", [t, ["t", None, [tab_bar_payload(rng, opens) for _ in range(rng.randint(0, 5))]], rng.choice([60, 80, 100, 120, 150, 200])], tag="tab:track"))
         if t is None or t == STD:
@@ -431,8 +455,8 @@ def oracle(c, obs):
                 return "returned %s with %d strings, asked for %d" % (o, len(t), ns)
             if nc is not None and courses != nc:
                 return "returned %s with %s courses per string, asked for %s" % (o, courses, nc)
-    elif fn in ("tab.note", "tab.nc"):
-        t, n, w = a
+    elif fn in ("tab.note", "tab.nc", "tab.nc_form"):
+        t, n, w = a[:3]
         opens = open_pitches(t or STD)
         ns = [n] if fn == "tab.note" else n
         playable = fingerable(t or STD, ns)
